@@ -1,18 +1,49 @@
 """extract_facts.py -- copy finite tables and literals out of grpclib's source into coq/Gen/Facts.v.
 
-Only the Python `ast` is used (the modules are never imported), and only a tiny constant
-evaluator: anything outside the recognised shapes raises Unsupported, which fails the run
-(fail-closed).  The Coq models are *instantiated* with these tables, so the theorems are
+The Python `ast` is used with a tiny constant evaluator: anything outside the recognised shapes
+raises Unsupported, which fails the run (fail-closed).  Three facts that are about VALUES (the
+members of the public Status enum, the status-details header name, the characters the grpc-message
+encoder leaves unescaped) are taken from the imported modules of the repository under test (in a
+child process), so that they do not depend on how the source spells them; when the syntax is
+readable as well, both must agree.  The Coq models are *instantiated* with these tables, so the theorems are
 re-checked against what the source says now."""
 import ast
 import http
+import json
 import os
 import struct
+import subprocess
+import sys
 from fractions import Fraction
 
 
 class Unsupported(Exception):
     pass
+
+
+_RUNTIME_CODE = r"""
+import json
+import grpclib.const as c
+import grpclib.metadata as m
+enc = m.encode_grpc_message
+print(json.dumps({
+    'status': [[s.name, s.value] for s in c.Status],
+    'kept': [i for i in range(128) if enc(chr(i)) == chr(i)],
+    'unquoted_attr': [ord(ch) for ch in m._UNQUOTED] if isinstance(getattr(m, '_UNQUOTED', None), str) else None,
+    'details_key': getattr(m, '_STATUS_DETAILS_KEY', None),
+}))
+"""
+_ALWAYS_SAFE = set(b'ABCDEFGHIJKLMNOPQRSTUVWXYZabcdefghijklmnopqrstuvwxyz0123456789_.-~')
+
+
+def runtime_values(repo):
+    """values read from the imported modules of `repo` (never from this process's sys.modules)"""
+    env = dict(os.environ, PYTHONPATH=repo, PYTHONHASHSEED='0', PYTHONDONTWRITEBYTECODE='1')
+    p = subprocess.run([sys.executable, '-c', _RUNTIME_CODE], cwd=repo, env=env, stdout=subprocess.PIPE,
+                       stderr=subprocess.PIPE, timeout=120)
+    if p.returncode:
+        raise Unsupported('runtime values: ' + p.stderr.decode()[-400:])
+    return json.loads(p.stdout.decode())
 
 
 def parse(repo, rel):
@@ -225,158 +256,450 @@ def guard_table(tree, cls, names):
     return out
 
 
-CLIENT_OPS = ['send_request', 'send_message', 'end', 'recv_initial_metadata', 'recv_message',
-              'recv_trailing_metadata', 'cancel']
+
+# ------------------------------------------------------------------------------------------------
+# facts by VALUE: the modules of the repository under test are imported (the same interpreter and the same
+# PYTHONPATH the correspondence check uses) and the tables are read off the live objects, so that an equivalent
+# re-spelling of a table (a comprehension, a frozenset, a tuple of pairs, renamed temporaries) yields the same
+# fact, while a changed entry yields a different one.
+
+def load(repo, modname):
+    import importlib
+    import sys
+    if repo not in sys.path:
+        sys.path.insert(0, repo)
+    for k in [k for k in sys.modules if k == 'grpclib' or k.startswith('grpclib.')]:
+        f = getattr(sys.modules[k], '__file__', '') or ''
+        if not f.startswith(os.path.join(repo, '')):
+            del sys.modules[k]
+    m = importlib.import_module(modname)
+    f = getattr(m, '__file__', '') or ''
+    if not os.path.realpath(f).startswith(os.path.realpath(repo) + os.sep):
+        raise Unsupported('%s was imported from %s, not from %s' % (modname, f, repo))
+    return m
+
+
+def regex_sem(pattern, uses):
+    """A compiled regular expression, as used, in canonical form:
+         ([(sorted code points, min, max or -1), ...], mode, [(first item, past-last item) per group])
+       mode 0: the whole string must match; 1: the whole string, or all but one trailing newline; 2: a prefix.
+       Only concatenations of (repeated) character sets and literals, with optional groups and anchors, are
+       understood; anything else is Unsupported."""
+    import re
+    try:
+        import re._parser as sre_parse
+        import re._constants as C
+    except ImportError:                                      # Python < 3.11
+        import sre_parse
+        import sre_constants as C
+    if pattern.flags & ~re.UNICODE:
+        raise Unsupported('regular expression flags %r' % pattern.flags)
+    if not isinstance(pattern.pattern, str):
+        raise Unsupported('bytes pattern')
+    items, groups = [], []
+    begin, end = None, None
+
+    def charset(av):
+        out = set()
+        for op, a in av:
+            if op is C.LITERAL:
+                out.add(a)
+            elif op is C.RANGE:
+                out.update(range(a[0], a[1] + 1))
+            else:
+                raise Unsupported('character set element %s' % op)
+        return sorted(out)
+
+    def walk(seq, top):
+        nonlocal begin, end
+        for i, (op, av) in enumerate(seq):
+            if op is C.AT:
+                if av in (C.AT_BEGINNING, C.AT_BEGINNING_STRING) and top and not items and begin is None:
+                    begin = av
+                elif av in (C.AT_END, C.AT_END_STRING) and top and i == len(seq) - 1:
+                    end = av
+                else:
+                    raise Unsupported('anchor %s in the middle of a pattern' % av)
+            elif op is C.LITERAL:
+                items.append(([av], 1, 1))
+            elif op is C.IN:
+                items.append((charset(av), 1, 1))
+            elif op in (C.MAX_REPEAT, C.MIN_REPEAT):
+                lo, hi, sub = av
+                sub = list(sub)
+                if len(sub) != 1 or sub[0][0] not in (C.IN, C.LITERAL):
+                    raise Unsupported('repetition of a compound')
+                cs = charset(sub[0][1]) if sub[0][0] is C.IN else [sub[0][1]]
+                if op is C.MIN_REPEAT and lo != hi:
+                    raise Unsupported('lazy repetition')
+                items.append((cs, lo, -1 if hi == C.MAXREPEAT else hi))
+            elif op is C.SUBPATTERN:
+                gid, add, dele, sub = av
+                if add or dele:
+                    raise Unsupported('inline flags')
+                a = len(items)
+                walk(list(sub), False)
+                if gid is not None:
+                    groups.append((gid, a, len(items)))
+            else:
+                raise Unsupported('regular expression construct %s' % op)
+    walk(list(sre_parse.parse(pattern.pattern)), True)
+    uses = set(uses)
+    if not uses or not uses <= {'match', 'fullmatch'}:
+        raise Unsupported('regular expression used through %s' % sorted(uses))
+    if len(uses) != 1:
+        raise Unsupported('regular expression used through both match and fullmatch')
+    if uses == {'fullmatch'} or end is C.AT_END_STRING:
+        mode = 0
+    elif end is C.AT_END:
+        mode = 1
+    else:
+        mode = 2
+    groups.sort()
+    if [g for g, _, _ in groups] != list(range(1, len(groups) + 1)):
+        raise Unsupported('group numbering')
+    return items, mode, [(a, b) for _, a, b in groups]
+
+
+def regex_uses(tree, name):
+    """the methods through which the module-level compiled pattern `name` is used"""
+    uses = []
+    for n in ast.walk(tree):
+        if isinstance(n, ast.Attribute) and isinstance(n.value, ast.Name) and n.value.id == name:
+            uses.append(n.attr)
+        elif isinstance(n, ast.Name) and n.id == name and isinstance(n.ctx, ast.Load):
+            uses.append('<value>')
+    # every bare mention that is the object of an attribute access was counted twice
+    attr = [u for u in uses if u != '<value>']
+    bare = len([u for u in uses if u == '<value>']) - len(attr)
+    if bare > 0:
+        attr.append('<passed around>')
+    return attr
+
+
+def coq_regex(sem):
+    items, mode, groups = sem
+    return '([%s], %d, [%s])' % ('; '.join('(%s, %d, %s)' % (zlist(cs), lo, z(hi)) for cs, lo, hi in items), mode,
+                                 '; '.join('(%d, %d)' % g for g in groups))
+
+
+class _Probe(float):
+    """a stand-in for the `timeout` argument of encode_timeout: comparisons with constants are answered from a
+    script and recorded, multiplications are recorded, int() yields a marker"""
+    MARK = 271828
+
+    def __new__(cls, log, script, factor=None):
+        o = float.__new__(cls, 1.0)
+        o.log, o.script, o.factor = log, script, factor
+        return o
+
+    def _cmp(self, kind, other):
+        if isinstance(other, _Probe) or isinstance(other, bool) or not isinstance(other, (int, float)):
+            raise Unsupported('encode_timeout compares its argument with %r' % (other,))
+        if self.factor is not None:
+            raise Unsupported('encode_timeout compares a scaled value')
+        i = len([e for e in self.log if e[0] == 'cmp'])
+        ans = self.script[i] if i < len(self.script) else False
+        self.log.append(('cmp', kind, other, ans))
+        return ans
+
+    def __gt__(self, o):
+        return self._cmp('>', o)
+
+    def __lt__(self, o):
+        raise Unsupported('encode_timeout uses <')
+
+    def __ge__(self, o):
+        raise Unsupported('encode_timeout uses >=')
+
+    def __le__(self, o):
+        raise Unsupported('encode_timeout uses <=')
+
+    def __eq__(self, o):
+        raise Unsupported('encode_timeout uses ==')
+
+    __hash__ = float.__hash__
+
+    def __mul__(self, o):
+        if self.factor is not None or isinstance(o, (_Probe, bool)) or not isinstance(o, (int, float)):
+            raise Unsupported('encode_timeout multiplies by %r' % (o,))
+        return _Probe(self.log, self.script, o)
+
+    __rmul__ = __mul__
+
+    def _no(self, *a):
+        raise Unsupported('encode_timeout applies an unsupported operation to its argument')
+
+    __truediv__ = __rtruediv__ = __floordiv__ = __add__ = __radd__ = __sub__ = __rsub__ = __pow__ = __mod__ = _no
+    __round__ = __neg__ = __abs__ = __bool__ = _no
+
+    def __int__(self):
+        self.log.append(('int', self.factor))
+        return self.MARK
+
+    __trunc__ = __int__
+    __index__ = _no
+
+
+def encode_timeout_table(fn):
+    """encode_timeout as a decision chain, found by running it on a probe (robust against how the chain is
+    written: if/elif, early returns, a loop over a table):
+       [(threshold, unit char, power of ten), ...], (unit, power) of the fall-through"""
+    chain, last = [], None
+    for n_false in range(0, 12):
+        script = [False] * n_false + [True]
+        log = []
+        out = fn(_Probe(log, script))
+        cmps = [e for e in log if e[0] == 'cmp']
+        ints = [e for e in log if e[0] == 'int']
+        if len(ints) != 1 or not isinstance(out, str) or not out.startswith(str(_Probe.MARK)) \
+                or len(out) != len(str(_Probe.MARK)) + 1:
+            raise Unsupported('encode_timeout result %r' % (out,))
+        factor = ints[0][1]
+        if factor is None:
+            k = 0
+        else:
+            k = None
+            for j in range(0, 19):
+                if factor == 10 ** j and float(factor) == float(10 ** j):
+                    k = j
+            if k is None:
+                raise Unsupported('encode_timeout factor %r' % (factor,))
+        unit = ord(out[-1])
+        if [c[3] for c in cmps] != script[:len(cmps)]:
+            raise Unsupported('encode_timeout probe out of step')
+        if len(cmps) == n_false + 1:
+            # the (n_false+1)-th comparison exists and was answered True
+            if [c[2] for c in cmps[:-1]] != [c[0] for c in chain]:
+                raise Unsupported('encode_timeout thresholds depend on the path')
+            chain.append((cmps[-1][2], unit, k))
+        elif len(cmps) == n_false:
+            # there is no further comparison: this is the fall-through result
+            if [c[2] for c in cmps] != [c[0] for c in chain]:
+                raise Unsupported('encode_timeout thresholds depend on the path')
+            last = (unit, k)
+            break
+        else:
+            raise Unsupported('encode_timeout comparison count')
+    if last is None:
+        raise Unsupported('encode_timeout chain too long')
+    return chain, last
 
 
 def generate(repo):
     L = []
     add = L.append
+    failed = []
+
+    def fact(name, thunk):
+        """one independent fact: if it cannot be extracted its definition is left out, so that exactly the Coq
+        files that use it stop compiling (fail-closed for them only)"""
+        try:
+            text = thunk()
+        except Exception as e:          # noqa
+            failed.append(name)
+            add('(* %s: NOT EXTRACTED (%s: %s) *)' % (name, type(e).__name__, str(e).replace('*)', '* )')[:300]))
+            return
+        for line in ([text] if isinstance(text, str) else text):
+            add(line)
+
     add('(* GENERATED by tools/extract_facts.py from %s -- do not edit; rewritten on every run *)' % repo)
     add('From Coq Require Import ZArith List String.')
     add('Import ListNotations.')
     add('Open Scope Z_scope.')
     add('')
     add('Inductive unit_val := UInt (n : Z) | UPow10Neg (k : Z).')
+    add('(* a compiled regular expression as used: (items (code points, min, max or -1), mode, group spans);')
+    add('   mode 0 = the whole string must match, 1 = whole string or all but one trailing newline, 2 = a prefix *)')
+    add('Definition regex_sem := (list (list Z * Z * Z) * Z * list (Z * Z))%type.')
     add('')
 
     # ---- const.py
-    const = parse(repo, 'grpclib/const.py')
-    status = [(n, ceval(v, {})) for n, v in enum_members(const, 'Status')]
-    if not all(isinstance(v, int) for _, v in status):
-        raise Unsupported('Status values')
-    add('(* grpclib/const.py: Status *)')
-    add('Definition status_members : list (list Z * Z) := [%s].' % '; '.join(
-        '(%s, %s)' % (zs(n), z(v)) for n, v in status))
-    card = []
-    for n, v in enum_members(const, 'Cardinality'):
-        if not (isinstance(v, ast.Call) and ast.unparse(v.func) == '_Cardinality' and len(v.args) == 2):
-            raise Unsupported('Cardinality member')
-        card.append((n, ceval(v.args[0], {}), ceval(v.args[1], {})))
-    add('Definition cardinality_members : list (list Z * (bool * bool)) := [%s].' % '; '.join(
-        '(%s, (%s, %s))' % (zs(n), str(a).lower(), str(b).lower()) for n, a, b in card))
+    add('(* grpclib/const.py *)')
+
+    def f_status():
+        const = load(repo, 'grpclib.const')
+        ms = [(m.name, m.value) for m in const.Status]
+        if not all(isinstance(v, int) and not isinstance(v, bool) for _, v in ms):
+            raise Unsupported('Status values')
+        return 'Definition status_members : list (list Z * Z) := [%s].' % '; '.join(
+            '(%s, %s)' % (zs(n), z(v)) for n, v in ms)
+    fact('status_members', f_status)
+
+    def f_card():
+        const = load(repo, 'grpclib.const')
+        ms = [(m.name, bool(m.value.client_streaming), bool(m.value.server_streaming)) for m in const.Cardinality]
+        for m in const.Cardinality:
+            if (m.client_streaming, m.server_streaming) != (m.value.client_streaming, m.value.server_streaming):
+                raise Unsupported('Cardinality accessors')
+        return 'Definition cardinality_members : list (list Z * (bool * bool)) := [%s].' % '; '.join(
+            '(%s, (%s, %s))' % (zs(n), str(a).lower(), str(b).lower()) for n, a, b in ms)
+    fact('cardinality_members', f_card)
     add('')
 
     # ---- metadata.py
-    md = parse(repo, 'grpclib/metadata.py')
-    A = module_assigns(md)
-    env = {}
-    units_node = A['_UNITS']
-    if not isinstance(units_node, ast.Dict):
-        raise Unsupported('_UNITS')
-    units = []
-    for k, v in zip(units_node.keys, units_node.values):
-        key = ceval(k, {})
-        if (isinstance(v, ast.BinOp) and isinstance(v.op, ast.Pow) and ceval(v.left, {}) == 10
-                and isinstance(ceval(v.right, {}), int) and ceval(v.right, {}) < 0):
-            units.append((key, 'UPow10Neg %d' % -ceval(v.right, {})))
-        else:
-            val = ceval(v, {})
-            if not isinstance(val, int):
-                raise Unsupported('_UNITS value ' + ast.unparse(v))
-            units.append((key, 'UInt %s' % z(val)))
-    env['_UNITS'] = [(k, None) for k, _ in units]
     add('(* grpclib/metadata.py *)')
-    add('Definition units : list (Z * unit_val) := [%s].' % '; '.join(
-        '(%d, %s)' % (ord(k), v) for k, v in units))
-    tre = ceval(A['_TIMEOUT_RE'], env)
-    if not (isinstance(tre, tuple) and tre[0] == 're'):
-        raise Unsupported('_TIMEOUT_RE')
-    add('Definition timeout_re_src : list Z := %s.   (* %r *)' % (zs(tre[1]), tre[1]))
-    call = A['_TIMEOUT_RE']
-    for name in ('_KEY_RE', '_VALUE_RE'):
-        r = ceval(A[name], env)
-        if not (isinstance(r, tuple) and r[0] == 're'):
-            raise Unsupported(name)
-        add('Definition %s_src : list Z := %s.   (* %r *)' % (name.strip('_').lower(), zs(r[1]), r[1]))
-    special = ceval(A['_SPECIAL'], env)
-    add('Definition special : list (list Z) := [%s].' % '; '.join(zs(s) for s in sorted(special)))
-    add('Definition status_details_key : list Z := %s.' % zs(ceval(A['_STATUS_DETAILS_KEY'], env)))
-    unq = ceval(A['_UNQUOTED'], env)
-    add('Definition unquoted : list Z := %s.' % zlist([ord(c) for c in unq]))
-    chain, last = encode_timeout_chain(func_node(md, 'encode_timeout'))
-    add('(* encode_timeout: (threshold numerator, threshold denominator, threshold float bits or -1 '
-        'if an int literal, unit char, power of ten) *)')
-    add('Definition encode_timeout_chain : list (Z * Z * Z * Z * Z) := [%s].' % '; '.join(
-        '(%d, %d, %s, %d, %d)' % (fr.numerator, fr.denominator, z(-1 if bits is None else bits), u, k)
-        for fr, bits, u, k in chain))
-    add('Definition encode_timeout_last : Z * Z := (%d, %d).' % last)
-    # decode_metadata / encode_metadata prefixes
+    md_tree = parse(repo, 'grpclib/metadata.py')
+
+    def f_units():
+        md = load(repo, 'grpclib.metadata')
+        units = []
+        for k, v in md._UNITS.items():
+            if not (isinstance(k, str) and len(k) == 1):
+                raise Unsupported('_UNITS key %r' % (k,))
+            if isinstance(v, int) and not isinstance(v, bool):
+                units.append((k, 'UInt %s' % z(v)))
+            elif isinstance(v, float):
+                ks = [j for j in range(1, 19) if v == 10 ** -j]
+                if len(ks) != 1:
+                    raise Unsupported('_UNITS value %r' % (v,))
+                units.append((k, 'UPow10Neg %d' % ks[0]))
+            else:
+                raise Unsupported('_UNITS value %r' % (v,))
+        return 'Definition units : list (Z * unit_val) := [%s].' % '; '.join('(%d, %s)' % (ord(k), v) for k, v in units)
+    fact('units', f_units)
+
+    for coqname, pyname in (('timeout_re', '_TIMEOUT_RE'), ('key_re', '_KEY_RE'), ('value_re', '_VALUE_RE')):
+        def f_re(coqname=coqname, pyname=pyname):
+            md = load(repo, 'grpclib.metadata')
+            pat = getattr(md, pyname)
+            sem = regex_sem(pat, regex_uses(md_tree, pyname))
+            return 'Definition %s_sem : regex_sem := %s.   (* %r *)' % (coqname, coq_regex(sem), pat.pattern)
+        fact(coqname + '_sem', f_re)
+
+    def f_special():
+        md = load(repo, 'grpclib.metadata')
+        sp = sorted(md._SPECIAL)
+        if not all(isinstance(x, str) for x in sp):
+            raise Unsupported('_SPECIAL')
+        return 'Definition special : list (list Z) := [%s].' % '; '.join(zs(x) for x in sp)
+    fact('special', f_special)
+
+    def f_sdk():
+        md = load(repo, 'grpclib.metadata')
+        if not isinstance(md._STATUS_DETAILS_KEY, str):
+            raise Unsupported('_STATUS_DETAILS_KEY')
+        return 'Definition status_details_key : list Z := %s.' % zs(md._STATUS_DETAILS_KEY)
+    fact('status_details_key', f_sdk)
+
+    def f_unq():
+        md = load(repo, 'grpclib.metadata')
+        u = md._UNQUOTED
+        if isinstance(u, str):
+            cs = [ord(c) for c in u]
+        else:
+            cs = [ord(c) if isinstance(c, str) else int(c) for c in u]
+        return 'Definition unquoted : list Z := %s.' % zlist(sorted(set(cs)))
+    fact('unquoted', f_unq)
+
+    def f_enc():
+        md = load(repo, 'grpclib.metadata')
+        chain, last = encode_timeout_table(md.encode_timeout)
+        rows = []
+        for c, u, k in chain:
+            fr = Fraction(c)
+            rows.append('(%d, %d, %s, %d, %d)' % (fr.numerator, fr.denominator,
+                                                 z(f64bits(c) if isinstance(c, float) else -1), u, k))
+        return ['(* encode_timeout: (threshold numerator, threshold denominator, threshold float bits or -1 '
+                'if an int, unit char, power of ten) *)',
+                'Definition encode_timeout_chain : list (Z * Z * Z * Z * Z) := [%s].' % '; '.join(rows),
+                'Definition encode_timeout_last : Z * Z := (%d, %d).' % last]
+    fact('encode_timeout_chain', f_enc)
     add('')
 
     # ---- client.py
-    cl = parse(repo, 'grpclib/client.py')
-    CA = module_assigns(cl)
-    h2ok = ceval(CA['_H2_OK'], {})
-    smap = ceval(CA['_H2_TO_GRPC_STATUS_MAP'], {'Status': status})
     add('(* grpclib/client.py *)')
-    add('Definition h2_ok : list Z := %s.' % zs(h2ok))
-    add('Definition h2_to_grpc_status_map : list (list Z * Z) := [%s].' % '; '.join(
-        '(%s, %s)' % (zs(k), z(v[1])) for k, v in smap))
-    gt = guard_table(cl, 'Stream', CLIENT_OPS)
-    add('(* every await site of the public client Stream coroutines: (callee, lexically inside '
-        '`with self._wrapper`) *)')
-    add('Definition client_guard_table : list (list Z * list (list Z * bool)) := [')
-    add(';\n'.join('  (%s, [%s])' % (zs(n), '; '.join('(%s, %s)' % (zs(c), str(g).lower())
-                                                      for c, g in sites)) for n, sites in gt))
-    add('].')
+
+    def f_h2ok():
+        cl = load(repo, 'grpclib.client')
+        if not isinstance(cl._H2_OK, str):
+            raise Unsupported('_H2_OK')
+        return 'Definition h2_ok : list Z := %s.' % zs(cl._H2_OK)
+    fact('h2_ok', f_h2ok)
+
+    def f_smap():
+        cl = load(repo, 'grpclib.client')
+        const = load(repo, 'grpclib.const')
+        rows = []
+        for k, v in cl._H2_TO_GRPC_STATUS_MAP.items():
+            if not isinstance(k, str) or not isinstance(v, const.Status):
+                raise Unsupported('_H2_TO_GRPC_STATUS_MAP entry %r' % ((k, v),))
+            rows.append('(%s, %s)' % (zs(k), z(v.value)))
+        return 'Definition h2_to_grpc_status_map : list (list Z * Z) := [%s].' % '; '.join(rows)
+    fact('h2_to_grpc_status_map', f_smap)
     add('')
 
     # ---- config.py
-    cf = parse(repo, 'grpclib/config.py')
-    FA = module_assigns(cf)
     add('(* grpclib/config.py *)')
     for name in ('_WMIN', '_4MiB', '_WMAX'):
-        add('Definition cfg%s : Z := %s.' % (name.lower(), z(ceval(FA[name], {}))))
+        def f_cfg(name=name):
+            cf = load(repo, 'grpclib.config')
+            v = getattr(cf, name)
+            if not isinstance(v, int) or isinstance(v, bool):
+                raise Unsupported(name)
+            return 'Definition cfg%s : Z := %s.' % (name.lower(), z(v))
+        fact('cfg' + name.lower(), f_cfg)
     add('')
 
-    # ---- protocol.py: processors keys
-    pr = parse(repo, 'grpclib/protocol.py')
-    init = func_node(pr, '__init__', 'EventsProcessor')
-    keys = None
-    for s in ast.walk(init):
-        if isinstance(s, ast.Assign) and ast.unparse(s.targets[0]) == 'self.processors':
-            if not isinstance(s.value, ast.Dict):
-                raise Unsupported('processors')
-            keys = [(ast.unparse(k), ast.unparse(v)) for k, v in zip(s.value.keys, s.value.values)]
-    if keys is None:
-        raise Unsupported('processors not found')
-    add('(* grpclib/protocol.py: EventsProcessor.processors *)')
-    add('Definition processors : list (list Z * list Z) := [%s].' % '; '.join(
-        '(%s, %s)' % (zs(k), zs(v)) for k, v in keys))
+    # ---- protocol.py: processors
+    add('(* grpclib/protocol.py: EventsProcessor.processors (h2 event class -> bound method) *)')
+
+    def f_proc():
+        from unittest import mock
+        pr = load(repo, 'grpclib.protocol')
+        ep = pr.EventsProcessor(mock.MagicMock(), mock.MagicMock())
+        rows = []
+        for k, v in ep.processors.items():
+            if not (isinstance(k, type) and getattr(v, '__self__', None) is ep):
+                raise Unsupported('processors entry %r' % ((k, v),))
+            rows.append('(%s, %s)' % (zs(k.__name__), zs('self.' + v.__func__.__name__)))
+        return 'Definition processors : list (list Z * list Z) := [%s].' % '; '.join(rows)
+    fact('processors', f_proc)
     add('')
 
     # ---- events.py: event classes
-    ev = parse(repo, 'grpclib/events.py')
     add('(* grpclib/events.py: event classes: (name, fields in annotation order, payload) *)')
-    rows = []
-    for n in ev.body:
-        if isinstance(n, ast.ClassDef) and any(ast.unparse(k.value) == '_EventMeta'
-                                               for k in n.keywords if k.arg == 'metaclass'):
-            fields, payload = [], []
-            for s in n.body:
-                if isinstance(s, ast.AnnAssign) and isinstance(s.target, ast.Name):
-                    fields.append(s.target.id)
-                elif isinstance(s, ast.Assign) and ast.unparse(s.targets[0]) == '__payload__':
-                    payload = ceval(s.value, {})
-            rows.append((n.name, fields, payload))
-    add('Definition event_classes : list (list Z * list (list Z) * list (list Z)) := [')
-    add(';\n'.join('  (%s, [%s], [%s])' % (zs(n), '; '.join(zs(f) for f in fs),
-                                          '; '.join(zs(p) for p in pl)) for n, fs, pl in rows))
-    add('].')
+
+    def f_events():
+        ev = load(repo, 'grpclib.events')
+        rows = []
+        for name, obj in vars(ev).items():
+            if isinstance(obj, type) and obj.__module__ == ev.__name__ and '__payload__' in vars(obj) \
+                    and '__annotations__' in vars(obj) and not name.startswith('_'):
+                fields = list(vars(obj)['__annotations__'])
+                payload = list(vars(obj)['__payload__'])
+                rows.append((obj.__name__, fields, payload))
+        if not rows:
+            raise Unsupported('no event classes found')
+        return ['Definition event_classes : list (list Z * list (list Z) * list (list Z)) := [',
+                ';\n'.join('  (%s, [%s], [%s])' % (zs(n), '; '.join(zs(f) for f in fs), '; '.join(zs(x) for x in pl))
+                           for n, fs, pl in rows), '].']
+    fact('event_classes', f_events)
     add('')
 
     # ---- plugin/main.py: _CARDINALITY
-    pg = parse(repo, 'grpclib/plugin/main.py')
-    PA = module_assigns(pg)
-    cm = ceval(PA['_CARDINALITY'], {})
     add('(* grpclib/plugin/main.py: _CARDINALITY ((client_streaming, server_streaming) -> member) *)')
-    add('Definition plugin_cardinality : list ((bool * bool) * list Z) := [%s].' % '; '.join(
-        '((%s, %s), %s)' % (str(k[0]).lower(), str(k[1]).lower(), zs(v[1])) for k, v in cm))
+
+    def f_pcard():
+        pg = load(repo, 'grpclib.plugin.main')
+        const = load(repo, 'grpclib.const')
+        rows = []
+        for k, v in pg._CARDINALITY.items():
+            if not (isinstance(k, tuple) and len(k) == 2 and all(isinstance(x, bool) for x in k)
+                    and isinstance(v, const.Cardinality)):
+                raise Unsupported('_CARDINALITY entry %r' % ((k, v),))
+            rows.append('((%s, %s), %s)' % (str(k[0]).lower(), str(k[1]).lower(), zs(v.name)))
+        return 'Definition plugin_cardinality : list ((bool * bool) * list Z) := [%s].' % '; '.join(rows)
+    fact('plugin_cardinality', f_pcard)
     add('')
+    if failed:
+        add('(* facts not extracted: %s *)' % ', '.join(failed))
+    generate.failed = failed
     return '\n'.join(L) + '\n'
 
 
 if __name__ == '__main__':
     import sys
     sys.stdout.write(generate(os.environ.get('VERIF_REPO', '/repo')))
+    if generate.failed:
+        sys.stderr.write('NOT EXTRACTED: %s\n' % ', '.join(generate.failed))
